@@ -664,10 +664,34 @@ def translate_gen(repo: Path):
     return out
 
 
+def translate_td(repo: Path):
+    """gen/typeddicts.py: are the removals of a renamed key skipped when the rename does not change the key?"""
+    file = "src/cattrs/gen/typeddicts.py"
+    src = (repo / file).read_text()
+    mod = ast.parse(src)
+    fn = [n for n in mod.body if isinstance(n, ast.FunctionDef) and n.name == "make_dict_structure_fn"]
+    if len(fn) != 1:
+        raise T1Unrecognised(file, 0, "make_dict_structure_fn not found")
+    guards = []
+    for n in ast.walk(fn[0]):
+        if isinstance(n, ast.If) and len(n.body) == 1 and isinstance(n.body[0], ast.Expr):
+            b = _src(n.body[0])
+            if b.startswith("lines.append(") and ("del res[" in b or "res.pop(" in b):
+                guards.append(_src(n.test))
+    if len(guards) != 3:
+        raise T1Unrecognised(file, fn[0].lineno, f"expected three guarded removals of renamed keys, found {len(guards)}")
+    if all(g == "override.rename is not None and kn != an" for g in guards):
+        return {"skip_self_rename": True}
+    if all(g == "override.rename is not None" for g in guards):
+        return {"skip_self_rename": False}
+    raise T1Unrecognised(file, fn[0].lineno, f"removal guards differ: {guards}")
+
+
 def emit_gen(g) -> str:
     return ("(* GENERATED by harness/t1_translate.py from src/cattrs/gen/__init__.py -- do not edit *)\n"
             f"Definition src_recheck : bool := {_coq_bool(g['detailed_rechecks_errors'])}.\n"
-            f"Definition src_kw_last : bool := {_coq_bool(g['fast_kw_last'])}.\n")
+            f"Definition src_kw_last : bool := {_coq_bool(g['fast_kw_last'])}.\n"
+            f"Definition src_td_skip_self_rename : bool := {_coq_bool(g['td']['skip_self_rename'])}.\n")
 
 
 # ------------------------------------------------------- strategies/_unions.py
@@ -746,6 +770,7 @@ def main():
         summary["sections"]["converters"] = False
     try:
         g = translate_gen(repo)
+        g["td"] = translate_td(repo)
         write("GenSrc.v", emit_gen(g))
         summary["gen"] = g
         summary["sections"]["gen"] = True
